@@ -626,7 +626,7 @@ func factory(name string) *explore.Scenario {
 // racePass: concurrent requests on real goroutines under -race.
 func racePass() {
 	runs := 0
-	for _, sel := range [][]string{{"URL", "Method", "RequestID"}, {"RemoteAddr", "UserAgent", "CustomHeader"}, {"ACCESS"}} {
+	for _, sel := range [][]string{{"URL", "Method", "RequestID"}, {"RemoteAddr", "UserAgent", "CustomHeader"}, {"Request", "RemoteIP", "Referer"}, {"Proto", "HTTPVersion", "Host", "HostTrim"}, {"ACCESS"}} {
 		for rep := 0; rep < 200; rep++ {
 			var mu sync.Mutex
 			w := &lockedLines{mu: &mu}
